@@ -275,7 +275,13 @@ func runC13(res *vh.Result) {
 					}
 				}
 				seq := smf.NextSeq()
-				if _, err := fs.Request(smf, 0, vh.BuildMsg(vh.MModReq, &s.up, seq, vh.Rule{Kind: "FAR", ID: uint64(op.FAR), Action: op.Action}.UpdateIE()), seq, true); err != nil {
+				uie := vh.Rule{Kind: "FAR", ID: uint64(op.FAR), Action: op.Action}.UpdateIE()
+				if rng.Chance(1, 4) {
+					// PFCP fixes no order of the IEs inside a grouped IE: Apply Action before FAR ID
+					uie.C[0], uie.C[1] = uie.C[1], uie.C[0]
+					ops[len(ops)-1].Target = "apply-action-before-far-id"
+				}
+				if _, err := fs.Request(smf, 0, vh.BuildMsg(vh.MModReq, &s.up, seq, uie), seq, true); err != nil {
 					res.Inconc("request: " + err.Error())
 					return
 				}
